@@ -13,8 +13,9 @@ type ParserData struct {
 
 	Config        RollConfig
 	flagsStack    []RollConfig
-	counterStack  []IntType // f-string 嵌套计数，在解析时中起作用
-	varnameStack  []string  // 另一个解析用栈
+	estSaved      []RollConfig // 进入 st 的值(est)之前的开关，括号里要恢复成它
+	counterStack  []IntType    // f-string 嵌套计数，在解析时中起作用
+	varnameStack  []string     // 另一个解析用栈
 	jmpStack      []IntType
 	breakStack    []IntType // break，用时创建
 	continueStack []IntType // continue用，用时创建
@@ -336,6 +337,32 @@ func (e *ParserData) CounterPop() IntType {
 
 func (e *ParserData) FlagsPush() {
 	e.flagsStack = append(e.flagsStack, e.Config)
+}
+
+// EstEnter st 的值: 不在括号里的部分关掉语句、省略面数的骰子和位运算；括号里(ParenEnter)恢复成进入之前的开关
+func (e *ParserData) EstEnter() {
+	e.FlagsPush()
+	e.estSaved = append(e.estSaved, e.Config)
+	e.Config.DisableStmts = true
+	e.Config.DisableNDice = true
+	e.Config.DisableBitwiseOp = true
+}
+
+func (e *ParserData) EstLeave() {
+	e.estSaved = e.estSaved[:len(e.estSaved)-1]
+	e.FlagsPop()
+}
+
+// ParenEnter / ParenLeave 括号表达式的两端；只在 st 的值里才有事可做
+func (e *ParserData) ParenEnter() {
+	e.FlagsPush()
+	if n := len(e.estSaved); n > 0 {
+		e.Config = e.estSaved[n-1]
+	}
+}
+
+func (e *ParserData) ParenLeave() {
+	e.FlagsPop()
 }
 
 func (e *ParserData) FlagsPop() {
